@@ -151,8 +151,8 @@ func checkC13Reconn(ix *index, add addFn) {
 	conns := ix.connInfos()
 	// per connection: was a ping left unanswered for longer than the timeout?
 	type pstate struct {
-		lost     bool
-		late     bool
+		lost      bool
+		late      bool
 		selfClose int // trace index of a client-side close while the peer was still up
 	}
 	ps := map[int]*pstate{}
